@@ -32,7 +32,7 @@ IR_C = [_G + x for x in ("ir_writeNums", "ir_writeFixeds", "ir_writeFixedsDef", 
 IR_D = [_G + x for x in ("ir_readNums", "ir_readFixeds", "ir_readFixedsDef", "ir_readVstrs", "ir_readObjs")]
 IR_E = [_G + x for x in ("ir_crc16", "ir_crc32", "ir_sse", "ir_szse")]
 IR_TIE = [_G + x for x in ("encOp_ir", "encOp_ir_default", "decOp_ir", "cks_ir")]
-IR_THEOREMS = ["FinProto.Obl.ir_repo", "FinProto.Obl.ir_calls"] + IR_A + IR_B + IR_C + IR_D + IR_E + IR_TIE
+IR_THEOREMS = ["FinProto.Obl.ir_repo", "FinProto.Obl.ir_calls", "FinProto.Obl.ir_calls_cover"] + IR_A + IR_B + IR_C + IR_D + IR_E + IR_TIE
 IR_DEC = IR_D + [_G + "decOp_ir"]      # proved in Props/GoIR_D.lean / GoIRTieDec.lean
 
 
